@@ -20,25 +20,32 @@ Proof.
   apply bytes_eqb_eq in E. unfold lname in E. apply app_inv_head in E. exfalso. apply Hne. now apply p_int_inj.
 Qed.
 
-(* ---------------------------------------------------------------- the label table under first-occurrence numbering *)
+(* ---------------------------------------------------------------- the label table: text label -> number given by the scanner *)
 
-(* abstract view of label_desc_tab: labels seen in the module (latest first) and those defined *)
+(* abstract view of label_desc_tab: the labels seen in the module (latest first), each with the number
+   create_label_desc gave it (MIR_new_label: the context's counter), and those defined *)
 Definition zmem (l : Z) (ls : list Z) : bool := existsb (Z.eqb l) ls.
-Definition lab_entry (defd : list Z) (l : Z) : name * (Z * bool) := (lname l, (l, zmem l defd)).
+Definition lab_entry (defd : list Z) (e : Z * Z) : name * (Z * bool) := (lname (fst e), (snd e, zmem (fst e) defd)).
 
-Record lab_inv (st : sstate) (seen defd : list Z) : Prop := mkLabInv {
+Fixpoint lfind (l : Z) (seen : list (Z * Z)) : option Z :=
+  match seen with
+  | [] => None
+  | (o, k) :: r => if o =? l then Some k else lfind l r
+  end.
+
+Record lab_inv (st : sstate) (seen : list (Z * Z)) (defd : list Z) : Prop := mkLabInv {
   li_tab : ss_labels st = map (lab_entry defd) seen;
-  li_rng : Forall in_s64 seen;
-  li_nodup : NoDup seen;
-  li_sub : forall l, In l defd -> In l seen }.
+  li_rng : Forall (fun e => in_s64 (fst e)) seen;
+  li_nodup : NoDup (map fst seen);
+  li_sub : forall l, In l defd -> In l (map fst seen) }.
 
-Lemma lab_find_entry defd seen l : in_s64 l -> Forall in_s64 seen ->
-  lab_find (lname l) (map (lab_entry defd) seen) = if zmem l seen then Some (l, zmem l defd) else None.
+Lemma lab_find_entry defd seen l : in_s64 l -> Forall (fun e => in_s64 (fst e)) seen ->
+  lab_find (lname l) (map (lab_entry defd) seen) = match lfind l seen with Some k => Some (k, zmem l defd) | None => None end.
 Proof.
-  intros Hl. induction seen as [|x seen IH]; intros Hs; [reflexivity|].
-  pose proof (Forall_inv Hs) as Hx. pose proof (Forall_inv_tail Hs) as Hs'.
-  cbn [map lab_find lab_entry zmem existsb]. rewrite (lname_eqb x l Hx Hl), (Z.eqb_sym l x).
-  destruct (Z.eqb_spec x l) as [->|Hne]; [reflexivity|]. cbn [orb]. now apply IH.
+  intros Hl. induction seen as [|[x k] seen IH]; intros Hs; [reflexivity|].
+  pose proof (Forall_inv Hs) as Hx. pose proof (Forall_inv_tail Hs) as Hs'. cbn [fst] in Hx.
+  cbn [map lab_find lab_entry lfind fst snd]. rewrite (lname_eqb x l Hx Hl).
+  destruct (Z.eqb_spec x l) as [->|Hne]; [reflexivity|]. now apply IH.
 Qed.
 
 Lemma zmem_cons_same l ls : zmem l (l :: ls) = true.
@@ -46,17 +53,17 @@ Proof. unfold zmem. cbn [existsb]. now rewrite Z.eqb_refl. Qed.
 Lemma zmem_cons_other x l ls : x <> l -> zmem x (l :: ls) = zmem x ls.
 Proof. intros H. unfold zmem. cbn [existsb]. destruct (Z.eqb_spec x l); [contradiction | reflexivity]. Qed.
 
-Lemma lab_set_def_entry defd seen l : in_s64 l -> Forall in_s64 seen -> NoDup seen ->
+Lemma lab_set_def_entry defd seen l : in_s64 l -> Forall (fun e => in_s64 (fst e)) seen -> NoDup (map fst seen) ->
   lab_set_def (lname l) (map (lab_entry defd) seen) = map (lab_entry (l :: defd)) seen.
 Proof.
-  intros Hl. induction seen as [|x seen IH]; intros Hs Hnd; [reflexivity|].
-  pose proof (Forall_inv Hs) as Hx. pose proof (Forall_inv_tail Hs) as Hs'.
-  inversion Hnd as [|? ? Hnin Hnd']; subst.
-  cbn [map lab_set_def]. unfold lab_entry in *. rewrite (lname_eqb x l Hx Hl).
+  intros Hl. induction seen as [|[x k] seen IH]; intros Hs Hnd; [reflexivity|].
+  pose proof (Forall_inv Hs) as Hx. pose proof (Forall_inv_tail Hs) as Hs'. cbn [fst] in Hx.
+  cbn [map fst] in Hnd. inversion Hnd as [|? ? Hnin Hnd']; subst.
+  cbn [map lab_set_def]. unfold lab_entry in *. cbn [fst snd]. rewrite (lname_eqb x l Hx Hl).
   destruct (Z.eqb_spec x l) as [->|Hne].
   - rewrite zmem_cons_same. f_equal.
-    apply map_ext_in. intros y Hy.
-    rewrite zmem_cons_other; [reflexivity|]. intros ->. contradiction.
+    apply map_ext_in. intros [y ky] Hy. cbn [fst snd].
+    rewrite zmem_cons_other; [reflexivity|]. intros ->. apply Hnin. apply in_map_iff. exists (l, ky). split; [reflexivity | assumption].
   - rewrite (zmem_cons_other x l defd Hne). f_equal. now apply IH.
 Qed.
 
@@ -73,56 +80,75 @@ Definition set_labels (st : sstate) (tab : list (name * (Z * bool))) (next : Z) 
 Lemma zmem_false_notin l ls : zmem l ls = false -> ~ In l ls.
 Proof. intros H Hin. apply zmem_In in Hin. congruence. Qed.
 
-(* a reference to label l (create_label_desc (name, FALSE)) under canonical numbering *)
-Lemma label_desc_ref st seen defd l :
-  lab_inv st seen defd -> in_s64 l -> (zmem l seen = true \/ l = ss_next st + 1) ->
-  exists st', label_desc st (lname l) false = Some (l, st')
-    /\ ss_mods st' = ss_mods st /\ ss_mod st' = ss_mod st /\ ss_func st' = ss_func st
-    /\ lab_inv st' (if zmem l seen then seen else l :: seen) defd
-    /\ ss_next st' = (if zmem l seen then ss_next st else l).
+Lemma lfind_none_notin l seen : lfind l seen = None -> ~ In l (map fst seen).
 Proof.
-  intros [Htab Hrng Hnd Hsub] Hl Hc. unfold label_desc. rewrite Htab, lab_find_entry by assumption.
-  destruct (zmem l seen) eqn:Es.
+  induction seen as [|[x k] seen IH]; [intros _ []|]. cbn [lfind map fst].
+  destruct (Z.eqb_spec x l) as [->|Hne]; [discriminate|]. intros H [E|Hin]; [contradiction | now apply IH].
+Qed.
+
+Lemma lfind_some_in l k seen : lfind l seen = Some k -> In l (map fst seen).
+Proof.
+  induction seen as [|[x kx] seen IH]; [discriminate|]. cbn [lfind map fst].
+  destruct (Z.eqb_spec x l) as [->|Hne]; [now left | right; now apply IH].
+Qed.
+
+(* what create_label_desc answers for the text label l, and the table afterwards *)
+Definition seen_after (seen : list (Z * Z)) (next l : Z) : Z * list (Z * Z) * Z :=
+  match lfind l seen with
+  | Some k => (k, seen, next)
+  | None => (next + 1, (l, next + 1) :: seen, next + 1)
+  end.
+
+(* a reference to label l (create_label_desc (name, FALSE)) *)
+Lemma label_desc_ref st seen defd l :
+  lab_inv st seen defd -> in_s64 l ->
+  exists st', label_desc st (lname l) false = Some (fst (fst (seen_after seen (ss_next st) l)), st')
+    /\ ss_mods st' = ss_mods st /\ ss_mod st' = ss_mod st /\ ss_func st' = ss_func st
+    /\ lab_inv st' (snd (fst (seen_after seen (ss_next st) l))) defd
+    /\ ss_next st' = snd (seen_after seen (ss_next st) l).
+Proof.
+  intros [Htab Hrng Hnd Hsub] Hl. unfold label_desc, seen_after. rewrite Htab, lab_find_entry by assumption.
+  destruct (lfind l seen) as [k|] eqn:Es; cbn [fst snd].
   - exists st. repeat split; try reflexivity; assumption.
-  - destruct Hc as [Hc|Hc]; [discriminate|]. subst l.
-    eexists. split; [reflexivity|]. cbn [ss_mods ss_mod ss_func ss_labels ss_next].
+  - eexists. split; [reflexivity|]. cbn [ss_mods ss_mod ss_func ss_labels ss_next].
     split; [reflexivity|]. split; [reflexivity|]. split; [reflexivity|]. split; [|reflexivity].
+    pose proof (lfind_none_notin l seen Es) as Hnin.
     constructor; cbn [ss_labels].
-    + cbn [map]. f_equal. unfold lab_entry. f_equal. f_equal.
-      destruct (zmem (ss_next st + 1) defd) eqn:Ed; [|reflexivity].
-      apply zmem_In in Ed. apply Hsub in Ed. apply zmem_false_notin in Es. contradiction.
+    + cbn [map]. f_equal. unfold lab_entry. cbn [fst snd]. f_equal. f_equal.
+      destruct (zmem l defd) eqn:Ed; [|reflexivity].
+      apply zmem_In in Ed. apply Hsub in Ed. contradiction.
     + constructor; assumption.
-    + constructor; [now apply zmem_false_notin | assumption].
+    + cbn [map fst]. constructor; assumption.
     + intros x Hx. right. now apply Hsub.
 Qed.
 
 (* a definition of label l (create_label_desc (name, TRUE)) *)
 Lemma label_desc_def st seen defd l :
-  lab_inv st seen defd -> in_s64 l -> zmem l defd = false -> (zmem l seen = true \/ l = ss_next st + 1) ->
-  exists st', label_desc st (lname l) true = Some (l, st')
+  lab_inv st seen defd -> in_s64 l -> zmem l defd = false ->
+  exists st', label_desc st (lname l) true = Some (fst (fst (seen_after seen (ss_next st) l)), st')
     /\ ss_mods st' = ss_mods st /\ ss_mod st' = ss_mod st /\ ss_func st' = ss_func st
-    /\ lab_inv st' (if zmem l seen then seen else l :: seen) (l :: defd)
-    /\ ss_next st' = (if zmem l seen then ss_next st else l).
+    /\ lab_inv st' (snd (fst (seen_after seen (ss_next st) l))) (l :: defd)
+    /\ ss_next st' = snd (seen_after seen (ss_next st) l).
 Proof.
-  intros [Htab Hrng Hnd Hsub] Hl Hnd' Hc. unfold label_desc. rewrite Htab, lab_find_entry by assumption.
-  destruct (zmem l seen) eqn:Es.
+  intros [Htab Hrng Hnd Hsub] Hl Hnd'. unfold label_desc, seen_after. rewrite Htab, lab_find_entry by assumption.
+  destruct (lfind l seen) as [k|] eqn:Es; cbn [fst snd].
   - rewrite Hnd'. eexists. split; [reflexivity|]. cbn [ss_mods ss_mod ss_func ss_labels ss_next].
     split; [reflexivity|]. split; [reflexivity|]. split; [reflexivity|]. split; [|reflexivity].
     constructor; cbn [ss_labels].
     + now apply lab_set_def_entry.
     + assumption.
     + assumption.
-    + intros x [<-|Hx]; [now apply zmem_In | now apply Hsub].
-  - destruct Hc as [Hc|Hc]; [discriminate|]. subst l.
-    eexists. split; [reflexivity|]. cbn [ss_mods ss_mod ss_func ss_labels ss_next].
+    + intros x [<-|Hx]; [now apply (lfind_some_in l k) | now apply Hsub].
+  - eexists. split; [reflexivity|]. cbn [ss_mods ss_mod ss_func ss_labels ss_next].
     split; [reflexivity|]. split; [reflexivity|]. split; [reflexivity|]. split; [|reflexivity].
+    pose proof (lfind_none_notin l seen Es) as Hnin.
     constructor; cbn [ss_labels].
     + cbn [map]. f_equal.
-      * unfold lab_entry. now rewrite zmem_cons_same.
-      * apply map_ext_in. intros y Hy. unfold lab_entry.
-        rewrite zmem_cons_other; [reflexivity|]. intros ->. apply zmem_false_notin in Es. contradiction.
+      * unfold lab_entry. cbn [fst snd]. now rewrite zmem_cons_same.
+      * apply map_ext_in. intros [y ky] Hy. unfold lab_entry. cbn [fst snd].
+        rewrite zmem_cons_other; [reflexivity|]. intros ->. apply Hnin. apply in_map_iff. exists (l, ky). split; [reflexivity | assumption].
     + constructor; assumption.
-    + constructor; [now apply zmem_false_notin | assumption].
+    + cbn [map fst]. constructor; assumption.
     + intros x [<-|Hx]; [now left | right; now apply Hsub].
 Qed.
 
@@ -197,22 +223,21 @@ Qed.
 
 (* ---------------------------------------------------------------- abstract label state *)
 
-Record lstate : Set := mkL { l_seen : list Z; l_defd : list Z; l_next : Z }.
+Record lstate : Set := mkL { l_seen : list (Z * Z); l_defd : list Z; l_next : Z }.
 
 Definition s64_b (z : Z) : bool := (- 2 ^ 63 <=? z) && (z <? 2 ^ 63).
 Lemma s64_b_spec z : s64_b z = true -> in_s64 z.
 Proof. unfold s64_b, in_s64. rewrite andb_true_iff, Z.leb_le, Z.ltb_lt. tauto. Qed.
 
-(* first-occurrence numbering: a label is either known in the module or the next number of the context *)
-Definition l_ref (s : lstate) (l : Z) : option lstate :=
+(* the scanner's numbering: a text label is either known in the module (and keeps its number) or gets
+   the next number of the context; the result is that number *)
+Definition l_ref (s : lstate) (l : Z) : option (Z * lstate) :=
   if negb (s64_b l) then None
-  else if zmem l (l_seen s) then Some s
-  else if l =? l_next s + 1 then Some (mkL (l :: l_seen s) (l_defd s) l) else None.
+  else let '(k, seen', next') := seen_after (l_seen s) (l_next s) l in Some (k, mkL seen' (l_defd s) next').
 
-Definition l_def (s : lstate) (l : Z) : option lstate :=
+Definition l_def (s : lstate) (l : Z) : option (Z * lstate) :=
   if negb (s64_b l) || zmem l (l_defd s) then None
-  else if zmem l (l_seen s) then Some (mkL (l_seen s) (l :: l_defd s) (l_next s))
-  else if l =? l_next s + 1 then Some (mkL (l :: l_seen s) (l :: l_defd s) l) else None.
+  else let '(k, seen', next') := seen_after (l_seen s) (l_next s) l in Some (k, mkL seen' (l :: l_defd s) next').
 
 Definition lrel (st : sstate) (s : lstate) : Prop :=
   lab_inv st (l_seen s) (l_defd s) /\ ss_next st = l_next s.
@@ -224,35 +249,29 @@ Lemma same_core_refl st : same_core st st. Proof. repeat split. Qed.
 Lemma same_core_trans a b c : same_core a b -> same_core b c -> same_core a c.
 Proof. intros (A1 & A2 & A3) (B1 & B2 & B3). repeat split; congruence. Qed.
 
-Lemma l_ref_sim st s l s' :
-  lrel st s -> l_ref s l = Some s' ->
-  exists st', label_desc st (lname l) false = Some (l, st') /\ same_core st st' /\ lrel st' s'.
+Lemma l_ref_sim st s l k s' :
+  lrel st s -> l_ref s l = Some (k, s') ->
+  exists st', label_desc st (lname l) false = Some (k, st') /\ same_core st st' /\ lrel st' s'.
 Proof.
   intros [Hinv Hn] H. unfold l_ref in H.
   destruct (s64_b l) eqn:Eb; [|discriminate]. cbn [negb] in H. apply s64_b_spec in Eb.
-  destruct (zmem l (l_seen s)) eqn:Es.
-  - inversion H; subst s'. clear H.
-    destruct (label_desc_ref st (l_seen s) (l_defd s) l Hinv Eb (or_introl Es)) as (st' & E & C1 & C2 & C3 & Hinv' & Hn').
-    rewrite Es in *. exists st'. split; [assumption|]. split; [repeat split; assumption|]. split; [assumption | congruence].
-  - destruct (Z.eqb_spec l (l_next s + 1)) as [El|]; [|discriminate]. inversion H; subst s'. clear H.
-    destruct (label_desc_ref st (l_seen s) (l_defd s) l Hinv Eb ltac:(right; congruence)) as (st' & E & C1 & C2 & C3 & Hinv' & Hn').
-    rewrite Es in *. exists st'. split; [assumption|]. split; [repeat split; assumption|]. split; assumption.
+  destruct (label_desc_ref st (l_seen s) (l_defd s) l Hinv Eb) as (st' & E & C1 & C2 & C3 & Hinv' & Hn').
+  rewrite Hn in *. destruct (seen_after (l_seen s) (l_next s) l) as [[k0 seen'] next'] eqn:Ea. cbn [fst snd] in *.
+  inversion H; subst k s'. clear H.
+  exists st'. split; [assumption|]. split; [repeat split; assumption|]. split; assumption.
 Qed.
 
-Lemma l_def_sim st s l s' :
-  lrel st s -> l_def s l = Some s' ->
-  exists st', label_desc st (lname l) true = Some (l, st') /\ same_core st st' /\ lrel st' s'.
+Lemma l_def_sim st s l k s' :
+  lrel st s -> l_def s l = Some (k, s') ->
+  exists st', label_desc st (lname l) true = Some (k, st') /\ same_core st st' /\ lrel st' s'.
 Proof.
   intros [Hinv Hn] H. unfold l_def in H.
   destruct (s64_b l) eqn:Eb; [|discriminate]. cbn [negb orb] in H. apply s64_b_spec in Eb.
   destruct (zmem l (l_defd s)) eqn:Ed; [discriminate|].
-  destruct (zmem l (l_seen s)) eqn:Es.
-  - inversion H; subst s'. clear H.
-    destruct (label_desc_def st (l_seen s) (l_defd s) l Hinv Eb Ed (or_introl Es)) as (st' & E & C1 & C2 & C3 & Hinv' & Hn').
-    rewrite Es in *. exists st'. split; [assumption|]. split; [repeat split; assumption|]. split; [assumption | cbn; congruence].
-  - destruct (Z.eqb_spec l (l_next s + 1)) as [El|]; [|discriminate]. inversion H; subst s'. clear H.
-    destruct (label_desc_def st (l_seen s) (l_defd s) l Hinv Eb Ed ltac:(right; congruence)) as (st' & E & C1 & C2 & C3 & Hinv' & Hn').
-    rewrite Es in *. exists st'. split; [assumption|]. split; [repeat split; assumption|]. split; assumption.
+  destruct (label_desc_def st (l_seen s) (l_defd s) l Hinv Eb Ed) as (st' & E & C1 & C2 & C3 & Hinv' & Hn').
+  rewrite Hn in *. destruct (seen_after (l_seen s) (l_next s) l) as [[k0 seen'] next'] eqn:Ea. cbn [fst snd] in *.
+  inversion H; subst k s'. clear H.
+  exists st'. split; [assumption|]. split; [repeat split; assumption|]. split; assumption.
 Qed.
 
 (* a NAME operand that is not followed by ':' in a plain statement *)
@@ -273,8 +292,11 @@ Proof.
   destruct k; try contradiction; try discriminate; cbn [andb negb]; try rewrite andb_true_r; reflexivity.
 Qed.
 
-Definition l_op (s : lstate) (o : operand) : option lstate :=
-  match o with OLabel l => l_ref s l | _ => Some s end.
+Definition l_op (s : lstate) (o : operand) : option (operand * lstate) :=
+  match o with
+  | OLabel l => match l_ref s l with Some (k, s') => Some (OLabel k, s') | None => None end
+  | _ => Some (o, s)
+  end.
 
 (* text-level well-formedness of an operand at a position that is / is not a label position *)
 Definition regp_of (ofs : option fstate) (x : name) : bool :=
@@ -290,32 +312,33 @@ Definition top_ok (ofs : option fstate) (decl : name -> bool) (lp : bool) (o : o
   | _ => True
   end.
 
-Lemma parse_op_insn k nops st fs s o s' rest :
+Lemma parse_op_insn k nops st fs s o o' s' rest :
   plain_kind k -> match k with KExpr | KRef => False | _ => True end ->
   ss_func st = fs -> lrel st s ->
-  top_ok fs (declared (as_rstate st)) (label_position k nops) o -> l_op s o = Some s' -> op_follow rest ->
-  exists st', parse_op k nops st (tk_op o ++ rest) = OpPush (POp (tnorm_op o)) st' rest /\ same_core st st' /\ lrel st' s'.
+  top_ok fs (declared (as_rstate st)) (label_position k nops) o -> l_op s o = Some (o', s') -> op_follow rest ->
+  exists st', parse_op k nops st (tk_op o ++ rest) = OpPush (POp (tnorm_op o')) st' rest /\ same_core st st' /\ lrel st' s'.
 Proof.
   intros Hk Hk2 Hfs Hrel Hok Hl Hf.
   assert (Hkk : match k with KExpr | KRef => true | _ => false end = false) by (destruct k; try contradiction; reflexivity).
   destruct o as [r|i|u|b|b|b|m|n|str0|l]; cbn [tk_op tnorm_op top_ok l_op app] in *; unfold regp_of in *.
-  - destruct Hok as [Hlp Hr]. inversion Hl; subst s'.
+  - destruct Hok as [Hlp Hr]. inversion Hl; subst o' s'.
     rewrite parse_op_name by (try assumption; now apply op_follow_not_col).
     rewrite Hlp, Hkk, Hfs, Hr. cbn [negb andb]. exists st. split; [reflexivity | split; [apply same_core_refl | exact Hrel]].
-  - inversion Hl; subst s'. exists st. split; [reflexivity | split; [apply same_core_refl | exact Hrel]].
-  - inversion Hl; subst s'. exists st. split; [reflexivity | split; [apply same_core_refl | exact Hrel]].
-  - inversion Hl; subst s'. exists st. split; [reflexivity | split; [apply same_core_refl | exact Hrel]].
-  - inversion Hl; subst s'. exists st. split; [reflexivity | split; [apply same_core_refl | exact Hrel]].
-  - inversion Hl; subst s'. exists st. split; [reflexivity | split; [apply same_core_refl | exact Hrel]].
-  - destruct Hok as (Ht & Hb & Hi & Hsc). inversion Hl; subst s'.
+  - inversion Hl; subst o' s'. exists st. split; [reflexivity | split; [apply same_core_refl | exact Hrel]].
+  - inversion Hl; subst o' s'. exists st. split; [reflexivity | split; [apply same_core_refl | exact Hrel]].
+  - inversion Hl; subst o' s'. exists st. split; [reflexivity | split; [apply same_core_refl | exact Hrel]].
+  - inversion Hl; subst o' s'. exists st. split; [reflexivity | split; [apply same_core_refl | exact Hrel]].
+  - inversion Hl; subst o' s'. exists st. split; [reflexivity | split; [apply same_core_refl | exact Hrel]].
+  - destruct Hok as (Ht & Hb & Hi & Hsc). inversion Hl; subst o' s'.
     rewrite parse_op_mem; try assumption; try (rewrite Hfs; assumption).
     exists st. split; [reflexivity | split; [apply same_core_refl | exact Hrel]].
-  - destruct Hok as (Hlp & Hr & Hd). inversion Hl; subst s'.
+  - destruct Hok as (Hlp & Hr & Hd). inversion Hl; subst o' s'.
     rewrite parse_op_name by (try assumption; now apply op_follow_not_col).
     rewrite Hlp, Hkk, Hfs, Hr, Hd. cbn [negb andb]. exists st. split; [reflexivity | split; [apply same_core_refl | exact Hrel]].
-  - inversion Hl; subst s'. exists st. split; [reflexivity | split; [apply same_core_refl | exact Hrel]].
+  - inversion Hl; subst o' s'. exists st. split; [reflexivity | split; [apply same_core_refl | exact Hrel]].
   - rewrite parse_op_name by (try assumption; now apply op_follow_not_col). rewrite Hok.
-    destruct (l_ref_sim st s l s' Hrel Hl) as (st' & E & Hc & Hr'). rewrite E.
+    destruct (l_ref s l) as [[kk s1]|] eqn:Er; [|discriminate]. inversion Hl; subst o' s'.
+    destruct (l_ref_sim st s l kk s1 Hrel Er) as (st' & E & Hc & Hr'). rewrite E.
     exists st'. split; [reflexivity | split; assumption].
 Qed.
 
@@ -327,11 +350,22 @@ Fixpoint tops_ok (fs : option fstate) (decl : name -> bool) (k : stkind) (pos : 
   | o :: r => top_ok fs decl (label_position k pos) o /\ tops_ok fs decl k (S pos) r
   end.
 
-Fixpoint l_ops (s : lstate) (ops : list operand) : option lstate :=
+Fixpoint l_ops (s : lstate) (ops : list operand) : option (list operand * lstate) :=
   match ops with
-  | [] => Some s
-  | o :: r => match l_op s o with Some s1 => l_ops s1 r | None => None end
+  | [] => Some ([], s)
+  | o :: r => match l_op s o with
+              | Some (o', s1) => match l_ops s1 r with Some (r', s2) => Some (o' :: r', s2) | None => None end
+              | None => None
+              end
   end.
+
+Lemma l_ops_length ops : forall s ops' s', l_ops s ops = Some (ops', s') -> length ops' = length ops.
+Proof.
+  induction ops as [|o ops IH]; intros s ops' s' H; cbn [l_ops] in H.
+  - inversion H; reflexivity.
+  - destruct (l_op s o) as [[o1 s1]|]; [|discriminate]. destruct (l_ops s1 ops) as [[r' s2]|] eqn:E; [|discriminate].
+    inversion H; subst. cbn [length]. f_equal. eapply IH; eassumption.
+Qed.
 
 Definition pops (ops : list operand) : list sop := map (fun o => POp (tnorm_op o)) ops.
 
@@ -372,34 +406,35 @@ Lemma same_core_decl st st' : same_core st st' -> declared (as_rstate st') = dec
 Proof. intros (H1 & H2 & H3). unfold declared, as_rstate. cbn. now rewrite H2, H3. Qed.
 
 Lemma parse_ops_list k fs rest : plain_kind k -> match k with KExpr | KRef => False | _ => True end ->
-  forall ops acc st s s',
+  forall ops ops' acc st s s',
     ss_func st = fs -> lrel st s ->
-    tops_ok fs (declared (as_rstate st)) k (length acc) ops -> l_ops s ops = Some s' ->
+    tops_ok fs (declared (as_rstate st)) k (length acc) ops -> l_ops s ops = Some (ops', s') ->
     exists st', same_core st st' /\ lrel st' s'
       /\ forall fuel, (length ops < fuel)%nat ->
-            parse_ops fuel k st acc (sep_toks tk_op ops ++ TNL :: rest) = Some (rev acc ++ pops ops, false, st', rest).
+            parse_ops fuel k st acc (sep_toks tk_op ops ++ TNL :: rest) = Some (rev acc ++ pops ops', false, st', rest).
 Proof.
-  intros Hk Hk2. induction ops as [|o ops IH]; intros acc st s s' Hfs Hrel Hok Hl.
-  - cbn [l_ops] in Hl. inversion Hl; subst s'. exists st. split; [apply same_core_refl|]. split; [exact Hrel|].
+  intros Hk Hk2. induction ops as [|o ops IH]; intros ops' acc st s s' Hfs Hrel Hok Hl.
+  - cbn [l_ops] in Hl. inversion Hl; subst ops' s'. exists st. split; [apply same_core_refl|]. split; [exact Hrel|].
     intros fuel Hfuel. destruct fuel; [cbn in Hfuel; lia|]. cbn [sep_toks app parse_ops pops map]. now rewrite app_nil_r.
   - cbn [tops_ok l_ops] in Hok, Hl. destruct Hok as [Ho Hops].
-    destruct (l_op s o) as [s1|] eqn:El; [|discriminate].
+    destruct (l_op s o) as [[o1 s1]|] eqn:El; [|discriminate].
+    destruct (l_ops s1 ops) as [[r1 s2]|] eqn:Els; [|discriminate]. inversion Hl; subst ops' s'. clear Hl.
     destruct (tk_op_head o) as (t & r & Et & Hn1 & Hn2).
     destruct ops as [|o2 ops'].
     + (* last operand *)
-      destruct (parse_op_insn k (length acc) st fs s o s1 (TNL :: rest) Hk Hk2 Hfs Hrel Ho El I) as (st1 & Ep & Hc1 & Hr1).
-      cbn [l_ops] in Hl. inversion Hl; subst s'.
+      destruct (parse_op_insn k (length acc) st fs s o o1 s1 (TNL :: rest) Hk Hk2 Hfs Hrel Ho El I) as (st1 & Ep & Hc1 & Hr1).
+      cbn [l_ops] in Els. inversion Els; subst r1 s2.
       exists st1. split; [assumption|]. split; [assumption|].
       intros fuel Hfuel. destruct fuel; [cbn in Hfuel; lia|].
       rewrite sep_toks_one. rewrite Et in *. cbn [app] in *. rewrite parse_ops_unfold by assumption. cbv zeta. rewrite Ep.
       cbn [rev pops map]. reflexivity.
-    + destruct (parse_op_insn k (length acc) st fs s o s1 (TComma :: sep_toks tk_op (o2 :: ops') ++ TNL :: rest) Hk Hk2 Hfs Hrel Ho El I)
+    + destruct (parse_op_insn k (length acc) st fs s o o1 s1 (TComma :: sep_toks tk_op (o2 :: ops') ++ TNL :: rest) Hk Hk2 Hfs Hrel Ho El I)
         as (st1 & Ep & Hc1 & Hr1).
-      destruct (IH (POp (tnorm_op o) :: acc) st1 s1 s') as (st2 & Hc2 & Hr2 & E2).
+      destruct (IH r1 (POp (tnorm_op o1) :: acc) st1 s1 s2) as (st2 & Hc2 & Hr2 & E2).
       * destruct Hc1 as (_ & _ & ->). exact Hfs.
       * exact Hr1.
       * rewrite (same_core_decl st st1 Hc1). exact Hops.
-      * exact Hl.
+      * exact Els.
       * exists st2. split; [eapply same_core_trans; eassumption|]. split; [assumption|].
         intros fuel Hfuel. destruct fuel; [cbn in Hfuel; lia|].
         rewrite sep_toks_cons2. rewrite <- app_assoc. cbn [app].
@@ -426,10 +461,13 @@ Qed.
 Lemma stmt_kind_insn c : readable_code c = true -> stmt_kind (insn_name c) = Some (KInsn c).
 Proof. destruct c; intros H; try discriminate; reflexivity. Qed.
 
-Fixpoint l_defs (s : lstate) (labs : list Z) : option lstate :=
+Fixpoint l_defs (s : lstate) (labs : list Z) : option (list Z * lstate) :=
   match labs with
-  | [] => Some s
-  | l :: r => match l_def s l with Some s1 => l_defs s1 r | None => None end
+  | [] => Some ([], s)
+  | l :: r => match l_def s l with
+              | Some (k, s1) => match l_defs s1 r with Some (r', s2) => Some (k :: r', s2) | None => None end
+              | None => None
+              end
   end.
 
 Definition set_func (st : sstate) (fs : fstate) : sstate :=
@@ -438,27 +476,28 @@ Definition set_func (st : sstate) (fs : fstate) : sstate :=
 Lemma lrel_set_func st s fs : lrel st s -> lrel (set_func st fs) s.
 Proof. intros [[H1 H2 H3 H4] Hn]. split; [constructor; assumption | assumption]. Qed.
 
-Lemma def_labels_sim labs : forall st s s' fs,
-  ss_func st = Some fs -> lrel st s -> l_defs s labs = Some s' ->
+Lemma def_labels_sim labs : forall labs' st s s' fs,
+  ss_func st = Some fs -> lrel st s -> l_defs s labs = Some (labs', s') ->
   exists st', def_labels st (map lname labs) = Some st'
     /\ ss_mods st' = ss_mods st /\ ss_mod st' = ss_mod st
-    /\ ss_func st' = Some (fs_set_insns fs (rev (map ILabel labs) ++ fs_insns fs))
+    /\ ss_func st' = Some (fs_set_insns fs (rev (map ILabel labs') ++ fs_insns fs))
     /\ lrel st' s'.
 Proof.
-  induction labs as [|l labs IH]; intros st s s' fs Hfs Hrel Hl.
-  - cbn in Hl. inversion Hl; subst s'. exists st. cbn [map def_labels rev app].
+  induction labs as [|l labs IH]; intros labs' st s s' fs Hfs Hrel Hl.
+  - cbn in Hl. inversion Hl; subst labs' s'. exists st. cbn [map def_labels rev app].
     split; [reflexivity|]. split; [reflexivity|]. split; [reflexivity|]. split; [|assumption].
     rewrite Hfs. destruct fs; reflexivity.
-  - cbn [l_defs] in Hl. destruct (l_def s l) as [s1|] eqn:Ed; [|discriminate].
-    destruct (l_def_sim st s l s1 Hrel Ed) as (st1 & E1 & (C1 & C2 & C3) & Hr1).
+  - cbn [l_defs] in Hl. destruct (l_def s l) as [[k s1]|] eqn:Ed; [|discriminate].
+    destruct (l_defs s1 labs) as [[r1 s2]|] eqn:Eds; [|discriminate]. inversion Hl; subst labs' s'. clear Hl.
+    destruct (l_def_sim st s l k s1 Hrel Ed) as (st1 & E1 & (C1 & C2 & C3) & Hr1).
     cbn [map def_labels]. rewrite E1. rewrite C3, Hfs.
     set (st2 := mkSstate (ss_mods st1) (ss_mod st1)
                   (Some (mkFstate (fs_name fs) (fs_vararg fs) (fs_res fs) (fs_args fs) (fs_locals fs) (fs_globals fs)
-                           (ILabel l :: fs_insns fs))) (ss_labels st1) (ss_next st1)).
-    destruct (IH st2 s1 s' (fs_set_insns fs (ILabel l :: fs_insns fs))) as (st3 & E3 & D1 & D2 & D3 & Hr3).
+                           (ILabel k :: fs_insns fs))) (ss_labels st1) (ss_next st1)).
+    destruct (IH r1 st2 s1 s2 (fs_set_insns fs (ILabel k :: fs_insns fs))) as (st3 & E3 & D1 & D2 & D3 & Hr3).
     + reflexivity.
     + exact (lrel_set_func st1 s1 _ Hr1).
-    + exact Hl.
+    + exact Eds.
     + exists st3. split; [exact E3|]. split; [cbn in D1; congruence|]. split; [cbn in D2; congruence|]. split; [|exact Hr3].
       rewrite D3. unfold fs_set_insns. cbn [fs_name fs_vararg fs_res fs_args fs_locals fs_globals fs_insns map rev].
       now rewrite <- app_assoc.
@@ -497,25 +536,25 @@ Lemma plain_kind_insn c : plain_kind (KInsn c).
 Proof. repeat split. Qed.
 
 (* an instruction line with the label lines in front of it *)
-Lemma stmt_insn st fs s labs c ops s1 s2 rest :
+Lemma stmt_insn st fs s labs labs' c ops ops' s1 s2 rest :
   ss_func st = Some fs -> lrel st s -> readable_code c = true ->
-  l_defs s labs = Some s1 -> l_ops s1 ops = Some s2 ->
+  l_defs s labs = Some (labs', s1) -> l_ops s1 ops = Some (ops', s2) ->
   tops_ok (Some fs) (declared (as_rstate st)) (KInsn c) 0 ops ->
   (var_arity c = false -> length ops = insn_nops c) ->
   exists st', ss_mods st' = ss_mods st /\ ss_mod st' = ss_mod st
-    /\ ss_func st' = Some (fs_set_insns fs (IInsn c (map tnorm_op ops) :: rev (map ILabel labs) ++ fs_insns fs))
+    /\ ss_func st' = Some (fs_set_insns fs (IInsn c (map tnorm_op ops') :: rev (map ILabel labs') ++ fs_insns fs))
     /\ lrel st' s2
     /\ forall F, (length labs < F)%nat -> (length ops < F)%nat ->
           scan_stmt F st (label_lines labs ++ tk_insn (IInsn c ops) ++ rest) = SNext st' rest.
 Proof.
   intros Hfs Hrel Hrd Hdef Hops Hok Har.
-  destruct (def_labels_sim labs st s s1 fs Hfs Hrel Hdef) as (st1 & E1 & M1 & M2 & F1 & Hr1).
-  set (fs1 := fs_set_insns fs (rev (map ILabel labs) ++ fs_insns fs)) in *.
+  destruct (def_labels_sim labs labs' st s s1 fs Hfs Hrel Hdef) as (st1 & E1 & M1 & M2 & F1 & Hr1).
+  set (fs1 := fs_set_insns fs (rev (map ILabel labs') ++ fs_insns fs)) in *.
   assert (Hok1 : tops_ok (Some fs1) (declared (as_rstate st1)) (KInsn c) (length (@nil sop)) ops).
   { eapply tops_ok_change; [ | | exact Hok].
     - intros y. reflexivity.
     - intros y. unfold declared, as_rstate. cbn. rewrite M2, F1, Hfs. destruct (ss_mod st); reflexivity. }
-  destruct (parse_ops_list (KInsn c) (Some fs1) rest (plain_kind_insn c) I ops [] st1 s1 s2 F1 Hr1 Hok1 Hops)
+  destruct (parse_ops_list (KInsn c) (Some fs1) rest (plain_kind_insn c) I ops ops' [] st1 s1 s2 F1 Hr1 Hok1 Hops)
     as (st2 & (C1 & C2 & C3) & Hr2 & E2).
   eexists. split; [|split; [|split; [|split]]]; cycle 4.
   - intros F HF1 HF2.
@@ -525,15 +564,15 @@ Proof.
     unfold scan_body.
     rewrite parse_labels_lines; [ | | assumption].
     2:{ destruct (sep_toks tk_op ops) as [|t ts] eqn:E; [exact I|].
-        destruct ops as [|o ops']; [discriminate|].
+        destruct ops as [|o ops0]; [discriminate|].
         destruct (tk_op_head o) as (t0 & r0 & Et & _).
-        destruct ops'; [rewrite sep_toks_one in E | rewrite sep_toks_cons2 in E]; rewrite Et in E; inversion E; subst;
+        destruct ops0; [rewrite sep_toks_one in E | rewrite sep_toks_cons2 in E]; rewrite Et in E; inversion E; subst;
           destruct o; cbn [tk_op] in Et; try (inversion Et; subst; exact I); unfold tk_mem in Et; inversion Et; subst; exact I. }
     cbn [rev app]. rewrite stmt_kind_insn by assumption.
     cbn [label_count_bad is_var andb]. rewrite E1.
     rewrite E2 by assumption. cbn [rev app]. unfold stmt_exec. rewrite all_ops_pops.
-    assert (Harity : (negb (var_arity c) && negb (Nat.eqb (length (map tnorm_op ops)) (insn_nops c)))%bool = false).
-    { rewrite map_length. destruct (var_arity c); [reflexivity|]. rewrite (Har eq_refl), Nat.eqb_refl. reflexivity. }
+    assert (Harity : (negb (var_arity c) && negb (Nat.eqb (length (map tnorm_op ops')) (insn_nops c)))%bool = false).
+    { rewrite map_length, (l_ops_length ops s1 ops' s2 Hops). destruct (var_arity c); [reflexivity|]. rewrite (Har eq_refl), Nat.eqb_refl. reflexivity. }
     rewrite Harity, C3, F1. reflexivity.
   - cbn [ss_mods]. congruence.
   - cbn [ss_mod]. congruence.
@@ -541,16 +580,16 @@ Proof.
   - destruct Hr2 as [[T1 T2 T3 T4] Hn]. split; [constructor; assumption | assumption].
 Qed.
 
-Lemma stmt_endfunc st mn items fs s labs s1 rest :
-  ss_mod st = Some (mn, items) -> ss_func st = Some fs -> lrel st s -> l_defs s labs = Some s1 ->
+Lemma stmt_endfunc st mn items fs s labs labs' s1 rest :
+  ss_mod st = Some (mn, items) -> ss_func st = Some fs -> lrel st s -> l_defs s labs = Some (labs', s1) ->
   exists st', ss_mods st' = ss_mods st
-    /\ ss_mod st' = Some (mn, ItFunc (close_func (fs_set_insns fs (rev (map ILabel labs) ++ fs_insns fs))) :: items)
+    /\ ss_mod st' = Some (mn, ItFunc (close_func (fs_set_insns fs (rev (map ILabel labs') ++ fs_insns fs))) :: items)
     /\ ss_func st' = None /\ lrel st' s1
     /\ forall F, (length labs < F)%nat ->
           scan_stmt F st (label_lines labs ++ TName (str "endfunc") :: TNL :: rest) = SNext st' rest.
 Proof.
   intros Hmod Hfs Hrel Hdef.
-  destruct (def_labels_sim labs st s s1 fs Hfs Hrel Hdef) as (st1 & E1 & M1 & M2 & F1 & Hr1).
+  destruct (def_labels_sim labs labs' st s s1 fs Hfs Hrel Hdef) as (st1 & E1 & M1 & M2 & F1 & Hr1).
   eexists. split; [|split; [|split; [|split]]]; cycle 4.
   - intros F HF.
     destruct (label_lines_head labs (str "endfunc") (TNL :: rest)) as (x & r' & Eh).
@@ -600,15 +639,32 @@ Qed.
 
 (* ---------------------------------------------------------------- function bodies *)
 
-Fixpoint l_insns (s : lstate) (insns : list insn) : option lstate :=
+Fixpoint l_insns (s : lstate) (insns : list insn) : option (list insn * lstate) :=
   match insns with
-  | [] => Some s
-  | ILabel l :: r => match l_def s l with Some s1 => l_insns s1 r | None => None end
-  | IInsn _ ops :: r => match l_ops s ops with Some s1 => l_insns s1 r | None => None end
+  | [] => Some ([], s)
+  | ILabel l :: r =>
+      match l_def s l with
+      | Some (k, s1) => match l_insns s1 r with Some (r', s2) => Some (ILabel k :: r', s2) | None => None end
+      | None => None
+      end
+  | IInsn c ops :: r =>
+      match l_ops s ops with
+      | Some (ops', s1) => match l_insns s1 r with Some (r', s2) => Some (IInsn c ops' :: r', s2) | None => None end
+      | None => None
+      end
   end.
 
-Lemma l_defs_app s a b : l_defs s (a ++ b) = match l_defs s a with Some s1 => l_defs s1 b | None => None end.
-Proof. revert s; induction a as [|l a IH]; intros s; [reflexivity|]. cbn [app l_defs]. destruct (l_def s l); [apply IH | reflexivity]. Qed.
+Lemma l_defs_app s a b :
+  l_defs s (a ++ b) = match l_defs s a with
+                      | Some (a', s1) => match l_defs s1 b with Some (b', s2) => Some (a' ++ b', s2) | None => None end
+                      | None => None
+                      end.
+Proof.
+  revert s; induction a as [|l a IH]; intros s.
+  - cbn [app l_defs]. destruct (l_defs s b) as [[b' s2]|]; reflexivity.
+  - cbn [app l_defs]. destruct (l_def s l) as [[k s1]|]; [|reflexivity]. rewrite IH.
+    destruct (l_defs s1 a) as [[a' s2]|]; [|reflexivity]. destruct (l_defs s2 b) as [[b' s3]|]; reflexivity.
+Qed.
 
 Definition insn_ok (fs : fstate) (d : name -> bool) (i : insn) : Prop :=
   match i with
@@ -633,19 +689,19 @@ Lemma label_lines_length labs : length (label_lines labs) = (3 * length labs)%na
 Proof. induction labs as [|l labs IH]; [reflexivity|]. cbn [label_lines flat_map app length] in *. fold (label_lines labs). rewrite IH. lia. Qed.
 
 
-Lemma tbody_loop mn items d rest : forall insns labs st fs s s1 s',
+Lemma tbody_loop mn items d rest : forall insns insns' labs labs' st fs s s1 s',
   ss_mod st = Some (mn, items) -> ss_func st = Some fs -> lrel st s ->
   (forall x, declared (as_rstate st) x = d x) ->
-  l_defs s labs = Some s1 -> l_insns s1 insns = Some s' -> Forall (insn_ok fs d) insns ->
+  l_defs s labs = Some (labs', s1) -> l_insns s1 insns = Some (insns', s') -> Forall (insn_ok fs d) insns ->
   exists st', sreaches st (label_lines labs ++ flat_map tk_insn insns ++ TName (str "endfunc") :: TNL :: rest) st' rest
     /\ ss_mods st' = ss_mods st
     /\ ss_mod st' = Some (mn, ItFunc (close_func (fs_set_insns fs
-                         (rev (map tnorm_insn insns) ++ rev (map ILabel labs) ++ fs_insns fs))) :: items)
+                         (rev (map tnorm_insn insns') ++ rev (map ILabel labs') ++ fs_insns fs))) :: items)
     /\ ss_func st' = None /\ lrel st' s'.
 Proof.
-  induction insns as [|i insns IH]; intros labs st fs s s1 s' Hmod Hfs Hrel Hd Hdefs Hins Hok.
-  - cbn [l_insns] in Hins. inversion Hins; subst s'. cbn [flat_map app map rev].
-    destruct (stmt_endfunc st mn items fs s labs s1 rest Hmod Hfs Hrel Hdefs) as (st' & H1 & H2 & H3 & H4 & Hstep).
+  induction insns as [|i insns IH]; intros insns' labs labs' st fs s s1 s' Hmod Hfs Hrel Hd Hdefs Hins Hok.
+  - cbn [l_insns] in Hins. inversion Hins; subst insns' s'. cbn [flat_map app map rev].
+    destruct (stmt_endfunc st mn items fs s labs labs' s1 rest Hmod Hfs Hrel Hdefs) as (st' & H1 & H2 & H3 & H4 & Hstep).
     exists st'. split; [|split; [assumption | split; [exact H2 | split; assumption]]].
     replace (label_lines labs ++ TName (str "endfunc") :: TNL :: rest)
       with ((label_lines labs ++ [TName (str "endfunc"); TNL]) ++ rest) by (rewrite <- app_assoc; reflexivity).
@@ -655,28 +711,30 @@ Proof.
   - pose proof (Forall_inv Hok) as Hi. pose proof (Forall_inv_tail Hok) as Hoks.
     destruct i as [l|c ops].
     + (* a label line joins the pending ones *)
-      cbn [l_insns] in Hins. destruct (l_def s1 l) as [s2|] eqn:Ed; [|discriminate].
-      destruct (IH (labs ++ [l]) st fs s s2 s' Hmod Hfs Hrel Hd) as (st' & Hre & H1 & H2 & H3 & H4); try assumption.
+      cbn [l_insns] in Hins. destruct (l_def s1 l) as [[k s2]|] eqn:Ed; [|discriminate].
+      destruct (l_insns s2 insns) as [[r1 s3]|] eqn:Ei; [|discriminate]. inversion Hins; subst insns' s'. clear Hins.
+      destruct (IH r1 (labs ++ [l]) (labs' ++ [k]) st fs s s2 s3 Hmod Hfs Hrel Hd) as (st' & Hre & H1 & H2 & H3 & H4); try assumption.
       { rewrite l_defs_app, Hdefs. cbn [l_defs]. now rewrite Ed. }
       exists st'. split; [|split; [assumption|split; [|split; assumption]]].
       * cbn [flat_map tk_insn app]. rewrite label_lines_app in Hre. rewrite <- app_assoc in Hre. exact Hre.
       * rewrite H2. do 5 f_equal. cbn [map tnorm_insn rev]. rewrite map_app, rev_app_distr. cbn [map rev app].
         rewrite <- !app_assoc. reflexivity.
-    + cbn [l_insns] in Hins. destruct (l_ops s1 ops) as [s2|] eqn:Eo; [|discriminate].
+    + cbn [l_insns] in Hins. destruct (l_ops s1 ops) as [[ops' s2]|] eqn:Eo; [|discriminate].
+      destruct (l_insns s2 insns) as [[r1 s3]|] eqn:Ei; [|discriminate]. inversion Hins; subst insns' s'. clear Hins.
       destruct Hi as (Hrd & Htops & Har).
       assert (Htops' : tops_ok (Some fs) (declared (as_rstate st)) (KInsn c) 0 ops).
       { eapply tops_ok_change; [ | | exact Htops]; [reflexivity | exact Hd]. }
-      destruct (stmt_insn st fs s labs c ops s1 s2 (flat_map tk_insn insns ++ TName (str "endfunc") :: TNL :: rest)
+      destruct (stmt_insn st fs s labs labs' c ops ops' s1 s2 (flat_map tk_insn insns ++ TName (str "endfunc") :: TNL :: rest)
                   Hfs Hrel Hrd Hdefs Eo Htops' Har) as (st1 & M1 & M2 & F1 & Hr1 & Hstep).
-      set (fs1 := fs_set_insns fs (IInsn c (map tnorm_op ops) :: rev (map ILabel labs) ++ fs_insns fs)) in *.
-      destruct (IH [] st1 fs1 s2 s2 s') as (st' & Hre & H1 & H2 & H3 & H4).
+      set (fs1 := fs_set_insns fs (IInsn c (map tnorm_op ops') :: rev (map ILabel labs') ++ fs_insns fs)) in *.
+      destruct (IH r1 [] [] st1 fs1 s2 s2 s3) as (st' & Hre & H1 & H2 & H3 & H4).
       * congruence.
       * exact F1.
       * exact Hr1.
       * intros x. rewrite <- Hd. unfold declared, as_rstate. cbn. rewrite M2, F1, Hfs. destruct (ss_mod st); reflexivity.
       * reflexivity.
-      * exact Hins.
-      * eapply Forall_impl; [|exact Hoks]. intros [l|c' ops']; [tauto|]. cbn [insn_ok].
+      * exact Ei.
+      * eapply Forall_impl; [|exact Hoks]. intros [l|c' ops0]; [tauto|]. cbn [insn_ok].
         intros (A & B & C). split; [assumption|]. split; [|assumption].
         eapply tops_ok_change; [ | | exact B]; reflexivity.
       * exists st'. split; [|split; [congruence|split; [|split; assumption]]].
@@ -824,18 +882,18 @@ Proof.
 Qed.
 
 (* a statement outside functions: optional name, keyword, plain operands *)
-Lemma stmt_plain k kw n ops st s s' rest :
+Lemma stmt_plain k kw n ops ops' st s s' rest :
   stmt_kind (str kw) = Some k -> plain_kind k -> match k with KExpr | KRef | KInsn _ => False | _ => True end ->
   label_count_bad k (length (optlist n)) = false ->
-  ss_func st = None -> lrel st s -> tops_ok None (declared (as_rstate st)) k 0 ops -> l_ops s ops = Some s' ->
+  ss_func st = None -> lrel st s -> tops_ok None (declared (as_rstate st)) k 0 ops -> l_ops s ops = Some (ops', s') ->
   exists st1, same_core st st1 /\ lrel st1 s'
     /\ forall F, (length ops + 2 <= F)%nat ->
          scan_stmt F st (tk_optname n ++ TName (str kw) :: sep_toks tk_op ops ++ TNL :: rest)
-         = stmt_exec k (optlist n) st1 (pops ops) false rest.
+         = stmt_exec k (optlist n) st1 (pops ops') false rest.
 Proof.
   intros Hkind Hk Hk2 Hcnt Hfs Hrel Hok Hl.
   assert (Hk2' : match k with KExpr | KRef => False | _ => True end) by (destruct k; tauto).
-  destruct (parse_ops_list k None rest Hk Hk2' ops [] st s s' Hfs Hrel Hok Hl) as (st1 & Hc & Hr & E).
+  destruct (parse_ops_list k None rest Hk Hk2' ops ops' [] st s s' Hfs Hrel Hok Hl) as (st1 & Hc & Hr & E).
   exists st1. split; [assumption|]. split; [assumption|].
   intros F HF.
   destruct (tk_optname_head n (str kw) (sep_toks tk_op ops ++ TNL :: rest)) as (x & r' & Eh).
@@ -928,7 +986,7 @@ Lemma item_bss st mn items n len s rest : in_mod st mn items -> lrel st s -> 0 <
     /\ forall F, (3 <= F)%nat -> scan_stmt F st (tk_item (ItBss n len) ++ rest) = SNext st' rest.
 Proof.
   intros Hin Hrel Hlen. destruct Hin as [Hm Hf].
-  destruct (stmt_plain KBss "bss" n [OInt (s64 len)] st s s rest) as (st1 & Hc & Hr & E); try assumption; try reflexivity; try exact I.
+  destruct (stmt_plain KBss "bss" n [OInt (s64 len)] [OInt (s64 len)] st s s rest) as (st1 & Hc & Hr & E); try assumption; try reflexivity; try exact I.
   { repeat split. }
   { destruct n; reflexivity. }
   { split; exact I. }
@@ -993,15 +1051,18 @@ Qed.
 Definition lref_ops (l : Z) (l2 : option Z) (d : Z) : list operand :=
   OLabel l :: (match l2 with Some x => [OLabel x] | None => [] end) ++ (if d =? 0 then [] else [OInt d]).
 
-Definition l_item_lref (s : lstate) (l : Z) (l2 : option Z) : option lstate :=
+Definition l_item_lref (s : lstate) (l : Z) (l2 : option Z) : option (Z * option Z * lstate) :=
   match l_ref s l with
-  | Some s1 => match l2 with Some x => l_ref s1 x | None => Some s1 end
+  | Some (k, s1) => match l2 with
+                    | Some x => match l_ref s1 x with Some (k2, s2) => Some (k, Some k2, s2) | None => None end
+                    | None => Some (k, None, s1)
+                    end
   | None => None
   end.
 
-Lemma item_lref st mn items n l l2 d s s' rest : in_mod st mn items -> lrel st s ->
-  l_item_lref s l l2 = Some s' ->
-  exists st', item_done st st' mn items (ItLref n l l2 d) s'
+Lemma item_lref st mn items n l l2 k k2 d s s' rest : in_mod st mn items -> lrel st s ->
+  l_item_lref s l l2 = Some (k, k2, s') ->
+  exists st', item_done st st' mn items (ItLref n k k2 d) s'
     /\ forall F, (length (lref_ops l l2 d) + 2 <= F)%nat -> scan_stmt F st (tk_item (ItLref n l l2 d) ++ rest) = SNext st' rest.
 Proof.
   intros Hin Hrel Hl. destruct Hin as [Hm Hf].
@@ -1009,26 +1070,26 @@ Proof.
                 = tk_optname n ++ TName (str "lref") :: sep_toks tk_op (lref_ops l l2 d) ++ TNL :: rest).
   { cbn [tk_item]. unfold lref_ops. rewrite <- !app_assoc. cbn [app]. f_equal. f_equal.
     destruct l2 as [x|], (d =? 0); reflexivity. }
-  assert (Hlops : l_ops s (lref_ops l l2 d) = Some s').
-  { unfold lref_ops, l_item_lref in *. cbn [l_ops l_op]. destruct (l_ref s l) as [s1|]; [|discriminate].
+  assert (Hlops : l_ops s (lref_ops l l2 d) = Some (lref_ops k k2 d, s')).
+  { unfold lref_ops, l_item_lref in *. cbn [l_ops l_op]. destruct (l_ref s l) as [[k0 s1]|]; [|discriminate].
     destruct l2 as [x|]; cbn [app l_ops l_op].
-    - destruct (l_ref s1 x) as [s2|]; [|discriminate]. inversion Hl; subst. destruct (d =? 0); reflexivity.
+    - destruct (l_ref s1 x) as [[k3 s2]|]; [|discriminate]. inversion Hl; subst. destruct (d =? 0); reflexivity.
     - inversion Hl; subst. destruct (d =? 0); reflexivity. }
   assert (Hok : tops_ok None (declared (as_rstate st)) KLref 0 (lref_ops l l2 d)).
   { unfold lref_ops. destruct l2 as [x|], (d =? 0); cbn; tauto. }
-  destruct (stmt_plain KLref "lref" n (lref_ops l l2 d) st s s' rest) as (st1 & Hc & Hr & E); try assumption; try reflexivity; try exact I.
+  destruct (stmt_plain KLref "lref" n (lref_ops l l2 d) (lref_ops k k2 d) st s s' rest) as (st1 & Hc & Hr & E); try assumption; try reflexivity; try exact I.
   { repeat split. }
   { destruct n; reflexivity. }
   pose proof (in_mod_core st st1 mn items Hc (conj Hm Hf)) as Hin1.
-  exists (add_to st1 mn items (ItLref n l l2 d)). split.
+  exists (add_to st1 mn items (ItLref n k k2 d)). split.
   - destruct Hc as (C1 & C2 & C3). split; [cbn; congruence|]. split; [split; reflexivity | now apply lrel_add_to].
   - intros F HF. rewrite Etk. rewrite E by exact HF.
     unfold stmt_exec, pops, lref_ops.
-    destruct l2 as [x|]; destruct (Z.eqb_spec d 0) as [->|Hd]; cbn [map tnorm_op app];
-      rewrite ?(add_named_in st1 mn items n (fun y => ItLref y l (Some x) 0) Hin1),
-              ?(add_named_in st1 mn items n (fun y => ItLref y l (Some x) d) Hin1),
-              ?(add_named_in st1 mn items n (fun y => ItLref y l None 0) Hin1),
-              ?(add_named_in st1 mn items n (fun y => ItLref y l None d) Hin1); reflexivity.
+    destruct k2 as [x|]; destruct (Z.eqb_spec d 0) as [->|Hd]; cbn [map tnorm_op app];
+      rewrite ?(add_named_in st1 mn items n (fun y => ItLref y k (Some x) 0) Hin1),
+              ?(add_named_in st1 mn items n (fun y => ItLref y k (Some x) d) Hin1),
+              ?(add_named_in st1 mn items n (fun y => ItLref y k None 0) Hin1),
+              ?(add_named_in st1 mn items n (fun y => ItLref y k None d) Hin1); reflexivity.
 Qed.
 
 (* data elements as operands *)
@@ -1052,8 +1113,8 @@ Qed.
 Lemma tops_ok_imm ofs d k t els : forall pos, tops_ok ofs d k pos (map (el_op t) els).
 Proof. induction els as [|z els IH]; intros pos; [exact I|]. split; [destruct t; exact I | apply IH]. Qed.
 
-Lemma l_ops_imm s t els : l_ops s (map (el_op t) els) = Some s.
-Proof. induction els as [|z els IH]; [reflexivity|]. cbn [map l_ops]. destruct t; cbn [el_op l_op]; exact IH. Qed.
+Lemma l_ops_imm s t els : l_ops s (map (el_op t) els) = Some (map (el_op t) els, s).
+Proof. induction els as [|z els IH]; [reflexivity|]. cbn [map l_ops]. destruct t; cbn [el_op l_op]; rewrite IH; reflexivity. Qed.
 
 Lemma map_tnorm_imm t els : map tnorm_op (map (el_op t) els) = map (el_op t) els.
 Proof. rewrite map_map. apply map_ext. intros z. destruct t; reflexivity. Qed.
@@ -1085,7 +1146,7 @@ Lemma item_data st mn items n t els s rest : in_mod st mn items -> lrel st s ->
 Proof.
   intros Hin Hrel Ht Hels. destruct Hin as [Hm Hf].
   assert (Hw : wf_mtype t) by (destruct t; try discriminate; exact I).
-  destruct (parse_ops_list (KData t) None rest ltac:(repeat split) I (map (el_op t) els) [] st s s Hf Hrel
+  destruct (parse_ops_list (KData t) None rest ltac:(repeat split) I (map (el_op t) els) (map (el_op t) els) [] st s s Hf Hrel
               (tops_ok_imm None _ (KData t) t els _) (l_ops_imm s t els)) as (st1 & Hc & Hr & E).
   pose proof (in_mod_core st st1 mn items Hc (conj Hm Hf)) as Hin1.
   exists (add_to st1 mn items (ItData n t els)). split.
@@ -1433,9 +1494,13 @@ Proof.
   eapply tops_ok_change; [ | | exact B]; [|reflexivity]. intros x. unfold regp_of. apply H.
 Qed.
 
-Lemma item_func st mn items f s s' rest :
-  in_mod st mn items -> lrel st s -> func_ok items f -> l_insns s (f_insns f) = Some s' ->
-  exists st', sreaches st (tk_item (ItFunc f) ++ rest) st' rest /\ item_done st st' mn items (ItFunc (tnorm_func f)) s'.
+Definition func_with_insns (f : func) (insns : list insn) : func :=
+  mkFunc (f_name f) (f_vararg f) (f_res f) (f_args f) (f_locals f) (f_globals f) insns.
+
+Lemma item_func st mn items f insns' s s' rest :
+  in_mod st mn items -> lrel st s -> func_ok items f -> l_insns s (f_insns f) = Some (insns', s') ->
+  exists st', sreaches st (tk_item (ItFunc f) ++ rest) st' rest
+    /\ item_done st st' mn items (ItFunc (tnorm_func (func_with_insns f insns'))) s'.
 Proof.
   intros Hin Hrel (Hsig & Hloc & Hglob & Hins) Hl. cbn [tk_item]. rewrite tk_func_form.
   destruct (stmt_func_header st mn items f s
@@ -1458,7 +1523,7 @@ Proof.
   rewrite concat_chunks8 in C3 by lia.
   set (fs3 := set_vars fs2 (fs_locals fs2) (rev (f_globals f) ++ fs_globals fs2)) in *.
   assert (Hm3 : ss_mod st3 = Some (mn, items)) by congruence.
-  destruct (tbody_loop mn items (decl_of items (f_name f)) rest (f_insns f) [] st3 fs3 s s s' Hm3 C3 C4) as (st4 & Hre4 & D1 & D2 & D3 & D4).
+  destruct (tbody_loop mn items (decl_of items (f_name f)) rest (f_insns f) insns' [] [] st3 fs3 s s s' Hm3 C3 C4) as (st4 & Hre4 & D1 & D2 & D3 & D4).
   - apply (declared_in_func st3 mn items fs3 Hm3 C3).
   - reflexivity.
   - exact Hl.
@@ -1477,8 +1542,8 @@ Proof.
       eapply sreaches_trans; [exact Hre2|]. eapply sreaches_trans; [exact Hre3|].
       apply sreaches_nl. apply sreaches_nl. exact Hre4.
     + split; [congruence|]. split; [split; [|exact D3] | exact D4].
-      rewrite D2. do 3 f_equal. unfold close_func, fs_set_insns, tnorm_func, fs3, fs2, fs1, set_vars.
-      cbn [fs_name fs_vararg fs_res fs_args fs_locals fs_globals fs_insns map rev app].
+      rewrite D2. do 3 f_equal. unfold close_func, fs_set_insns, tnorm_func, func_with_insns, fs3, fs2, fs1, set_vars.
+      cbn [fs_name fs_vararg fs_res fs_args fs_locals fs_globals fs_insns map rev app f_name f_vararg f_res f_args f_locals f_globals f_insns].
       rewrite !app_nil_r, !rev_involutive. reflexivity.
 Qed.
 
@@ -1506,12 +1571,59 @@ Definition titem_ok (items : list item) (it : item) : Prop :=
   | _ => True
   end.
 
-Definition l_item (s : lstate) (it : item) : option lstate :=
+Definition l_item (s : lstate) (it : item) : option (item * lstate) :=
   match it with
-  | ItLref _ l l2 _ => l_item_lref s l l2
-  | ItFunc f => l_insns s (f_insns f)
-  | _ => Some s
+  | ItLref n l l2 d => match l_item_lref s l l2 with Some (k, k2, s') => Some (ItLref n k k2 d, s') | None => None end
+  | ItFunc f => match l_insns s (f_insns f) with
+                | Some (insns', s') => Some (ItFunc (func_with_insns f insns'), s')
+                | None => None
+                end
+  | _ => Some (it, s)
   end.
+
+(* what the well-formedness of later items looks at in the items scanned so far: names, and which are functions *)
+Definition item_key (it : item) : option name * bool :=
+  (item_name it, match it with ItFunc _ => true | _ => false end).
+Definition same_keys (a b : list item) : Prop := map item_key a = map item_key b.
+
+Lemma dmod_keys a b x : same_keys a b -> dmod a x = dmod b x.
+Proof.
+  unfold same_keys, dmod. revert b; induction a as [|i a IH]; intros [|j b] H; try discriminate; [reflexivity|].
+  cbn [map] in H. inversion H as [[H1 H2 H3]]. cbn [existsb]. rewrite H1. f_equal. now apply IH.
+Qed.
+
+Lemma dfun_keys a b x : same_keys a b -> dfun a x = dfun b x.
+Proof.
+  unfold same_keys, dfun. revert b; induction a as [|i a IH]; intros [|j b] H; try discriminate; [reflexivity|].
+  cbn [map] in H. inversion H as [[H1 H2 H3]]. cbn [existsb]. f_equal; [|now apply IH].
+  destruct i, j; cbn in H1, H2; try discriminate; try reflexivity. inversion H1. reflexivity.
+Qed.
+
+Lemma decl_of_keys a b fn x : same_keys a b -> decl_of a fn x = decl_of b fn x.
+Proof. intros H. unfold decl_of. f_equal. exact (dmod_keys a b x H). Qed.
+
+Lemma insn_ok_decl fs d d' i : (forall x, d' x = d x) -> insn_ok fs d i -> insn_ok fs d' i.
+Proof.
+  intros H. destruct i as [l|c ops]; [tauto|]. cbn [insn_ok]. intros (A & B & C). split; [assumption|]. split; [|assumption].
+  eapply tops_ok_change; [ | | exact B]; [reflexivity | exact H].
+Qed.
+
+Lemma titem_ok_keys a b it : same_keys a b -> titem_ok a it -> titem_ok b it.
+Proof.
+  intros H. destruct it as [x|x|x|x len|x t els|x r d|x l l2 d|x f|x va res args|f]; cbn [titem_ok]; try tauto.
+  - now rewrite (dmod_keys a b r H).
+  - now rewrite (dmod_keys a b f H), (dfun_keys a b f H).
+  - intros (H1 & H2 & H3 & H4). split; [assumption|]. split; [assumption|]. split; [assumption|].
+    eapply Forall_impl; [|exact H4]. intros i. apply insn_ok_decl. intros y. symmetry. now apply decl_of_keys.
+Qed.
+
+Lemma l_item_key s it it' s' : l_item s it = Some (it', s') -> item_key (tnorm_item it') = item_key (tnorm_item it).
+Proof.
+  destruct it as [x|x|x|x len|x t els|x r d|x l l2 d|x f|x va res args|f]; cbn [l_item]; intros H;
+    try (inversion H; subst; reflexivity).
+  - destruct (l_item_lref s l l2) as [[[k k2] s1]|]; [|discriminate]. inversion H; subst. reflexivity.
+  - destruct (l_insns s (f_insns f)) as [[insns' s1]|]; [|discriminate]. inversion H; subst. reflexivity.
+Qed.
 
 Lemma sep_toks_len2 {A} (tk : A -> list ttok) (els : list A) :
   (forall a, 1 <= length (tk a))%nat -> (2 * length els <= length (sep_toks tk els) + 1)%nat.
@@ -1529,38 +1641,39 @@ Proof.
   intros Hc Hne H. apply sreaches_step; [assumption|]. intros F HF. apply H. rewrite app_length in HF. lia.
 Qed.
 
-Lemma item_reaches st mn items it s s' rest :
-  in_mod st mn items -> lrel st s -> titem_ok items it -> l_item s it = Some s' ->
-  exists st', sreaches st (tk_item it ++ rest) st' rest /\ item_done st st' mn items (tnorm_item it) s'.
+Lemma item_reaches st mn items it it' s s' rest :
+  in_mod st mn items -> lrel st s -> titem_ok items it -> l_item s it = Some (it', s') ->
+  exists st', sreaches st (tk_item it ++ rest) st' rest /\ item_done st st' mn items (tnorm_item it') s'.
 Proof.
   intros Hin Hrel Hok Hl.
   destruct (declared_in_mod st mn items Hin) as [Hd Hdf].
-  destruct it as [x|x|x|x len|x t els|x r d|x l l2 d|x f|x va res args|f]; cbn [titem_ok l_item tnorm_item] in *.
-  - inversion Hl; subst s'. destruct (item_import st mn items x s rest Hin Hrel) as (st' & Hdone & Hstep).
+  destruct it as [x|x|x|x len|x t els|x r d|x l l2 d|x f|x va res args|f]; cbn [titem_ok l_item] in *.
+  - inversion Hl; subst it' s'. destruct (item_import st mn items x s rest Hin Hrel) as (st' & Hdone & Hstep).
     exists st'. split; [|assumption]. apply (step_to_reach st _ rest st' 3); [cbn; lia | cbn; lia | exact Hstep].
-  - inversion Hl; subst s'. destruct (item_export st mn items x s rest Hin Hrel) as (st' & Hdone & Hstep).
+  - inversion Hl; subst it' s'. destruct (item_export st mn items x s rest Hin Hrel) as (st' & Hdone & Hstep).
     exists st'. split; [|assumption]. apply (step_to_reach st _ rest st' 3); [cbn; lia | cbn; lia | exact Hstep].
-  - inversion Hl; subst s'. destruct (item_forward st mn items x s rest Hin Hrel) as (st' & Hdone & Hstep).
+  - inversion Hl; subst it' s'. destruct (item_forward st mn items x s rest Hin Hrel) as (st' & Hdone & Hstep).
     exists st'. split; [|assumption]. apply (step_to_reach st _ rest st' 3); [cbn; lia | cbn; lia | exact Hstep].
-  - inversion Hl; subst s'. destruct (item_bss st mn items x len s rest Hin Hrel Hok) as (st' & Hdone & Hstep).
+  - inversion Hl; subst it' s'. destruct (item_bss st mn items x len s rest Hin Hrel Hok) as (st' & Hdone & Hstep).
     exists st'. split; [|assumption]. apply (step_to_reach st _ rest st' 3); [ | | exact Hstep];
       cbn [tk_item]; rewrite app_length; cbn [length]; lia.
-  - inversion Hl; subst s'. destruct Hok as [Ht Hels].
+  - inversion Hl; subst it' s'. destruct Hok as [Ht Hels].
     destruct (item_data st mn items x t els s rest Hin Hrel Ht Hels) as (st' & Hdone & Hstep).
     exists st'. split; [|assumption]. apply (step_to_reach st _ rest st' (length els + 2)); [ | | exact Hstep];
       cbn [tk_item]; rewrite !app_length; cbn [length];
       pose proof (sep_toks_len2 (tk_el t) els ltac:(intros a; destruct t; try discriminate; cbn; lia)); lia.
-  - inversion Hl; subst s'. destruct (item_ref st mn items x r d s rest Hin Hrel ltac:(now rewrite Hd)) as (st' & Hdone & Hstep).
+  - inversion Hl; subst it' s'. destruct (item_ref st mn items x r d s rest Hin Hrel ltac:(now rewrite Hd)) as (st' & Hdone & Hstep).
     exists st'. split; [|assumption]. apply (step_to_reach st _ rest st' 4); [ | | exact Hstep];
       cbn [tk_item]; rewrite app_length; cbn [length]; lia.
-  - destruct (item_lref st mn items x l l2 d s s' rest Hin Hrel Hl) as (st' & Hdone & Hstep).
+  - destruct (l_item_lref s l l2) as [[[k k2] s1]|] eqn:Elr; [|discriminate]. inversion Hl; subst it' s'.
+    destruct (item_lref st mn items x l l2 k k2 d s s1 rest Hin Hrel Elr) as (st' & Hdone & Hstep).
     exists st'. split; [|assumption]. apply (step_to_reach st _ rest st' (length (lref_ops l l2 d) + 2)); [ | | exact Hstep];
       cbn [tk_item]; unfold lref_ops; rewrite !app_length; cbn [length]; destruct l2, (d =? 0); cbn [length app]; lia.
-  - inversion Hl; subst s'. destruct Hok as [H1 H2].
+  - inversion Hl; subst it' s'. destruct Hok as [H1 H2].
     destruct (item_expr st mn items x f s rest Hin Hrel ltac:(now rewrite Hd) ltac:(now rewrite Hdf)) as (st' & Hdone & Hstep).
     exists st'. split; [|assumption]. apply (step_to_reach st _ rest st' 4); [ | | exact Hstep];
       cbn [tk_item]; rewrite app_length; cbn [length]; lia.
-  - inversion Hl; subst s'. destruct (item_proto st mn items x va res args s rest Hin Hrel Hok) as (st' & Hdone & Hstep).
+  - inversion Hl; subst it' s'. destruct (item_proto st mn items x va res args s rest Hin Hrel Hok) as (st' & Hdone & Hstep).
     exists st'. split; [|assumption].
     assert (Hlen : (length (sig_els res args) <= length (tk_proto_tail va res args))%nat).
     { unfold tk_proto_tail. rewrite !app_length. cbn [length].
@@ -1571,7 +1684,8 @@ Proof.
     + cbn [tk_item]. rewrite app_length. cbn [length]. lia.
     + cbn [tk_item]. rewrite app_length. cbn [length]. lia.
     + intros F HF. apply Hstep. lia.
-  - exact (item_func st mn items f s s' rest Hin Hrel Hok Hl).
+  - destruct (l_insns s (f_insns f)) as [[insns' s1]|] eqn:Ei; [|discriminate]. inversion Hl; subst it' s'.
+    exact (item_func st mn items f insns' s s1 rest Hin Hrel Hok Ei).
 Qed.
 
 Fixpoint titems_ok (acc : list item) (its : list item) : Prop :=
@@ -1580,23 +1694,30 @@ Fixpoint titems_ok (acc : list item) (its : list item) : Prop :=
   | it :: r => titem_ok acc it /\ titems_ok (tnorm_item it :: acc) r
   end.
 
-Fixpoint l_items (s : lstate) (its : list item) : option lstate :=
+Fixpoint l_items (s : lstate) (its : list item) : option (list item * lstate) :=
   match its with
-  | [] => Some s
-  | it :: r => match l_item s it with Some s1 => l_items s1 r | None => None end
+  | [] => Some ([], s)
+  | it :: r => match l_item s it with
+               | Some (it', s1) => match l_items s1 r with Some (r', s2) => Some (it' :: r', s2) | None => None end
+               | None => None
+               end
   end.
 
-Lemma items_reach mn rest : forall its acc st s s',
-  in_mod st mn acc -> lrel st s -> titems_ok acc its -> l_items s its = Some s' ->
+Lemma items_reach mn rest : forall its its' acc acc' st s s',
+  in_mod st mn acc' -> same_keys acc' acc -> lrel st s -> titems_ok acc its -> l_items s its = Some (its', s') ->
   exists st', sreaches st (flat_map tk_item its ++ rest) st' rest
-    /\ ss_mods st' = ss_mods st /\ in_mod st' mn (rev (map tnorm_item its) ++ acc) /\ lrel st' s'.
+    /\ ss_mods st' = ss_mods st /\ in_mod st' mn (rev (map tnorm_item its') ++ acc') /\ lrel st' s'.
 Proof.
-  induction its as [|it its IH]; intros acc st s s' Hin Hrel Hok Hl.
-  - cbn in Hl. inversion Hl; subst s'. exists st. split; [apply sreaches_refl|]. split; [reflexivity|]. split; [exact Hin | exact Hrel].
+  induction its as [|it its IH]; intros its' acc acc' st s s' Hin Hk Hrel Hok Hl.
+  - cbn in Hl. inversion Hl; subst its' s'. exists st. split; [apply sreaches_refl|]. split; [reflexivity|]. split; [exact Hin | exact Hrel].
   - cbn [titems_ok l_items] in Hok, Hl. destruct Hok as [Hit Hits].
-    destruct (l_item s it) as [s1|] eqn:El; [|discriminate].
-    destruct (item_reaches st mn acc it s s1 (flat_map tk_item its ++ rest) Hin Hrel Hit El) as (st1 & Hre1 & M1 & Hin1 & Hr1).
-    destruct (IH (tnorm_item it :: acc) st1 s1 s' Hin1 Hr1 Hits Hl) as (st2 & Hre2 & M2 & Hin2 & Hr2).
+    destruct (l_item s it) as [[it1 s1]|] eqn:El; [|discriminate].
+    destruct (l_items s1 its) as [[r1 s2]|] eqn:Els; [|discriminate]. inversion Hl; subst its' s'. clear Hl.
+    assert (Hit' : titem_ok acc' it) by (apply (titem_ok_keys acc acc' it); [unfold same_keys in *; congruence | exact Hit]).
+    destruct (item_reaches st mn acc' it it1 s s1 (flat_map tk_item its ++ rest) Hin Hrel Hit' El) as (st1 & Hre1 & M1 & Hin1 & Hr1).
+    assert (Hk1 : same_keys (tnorm_item it1 :: acc') (tnorm_item it :: acc)).
+    { unfold same_keys in *. cbn [map]. rewrite (l_item_key s it it1 s1 El). now f_equal. }
+    destruct (IH r1 (tnorm_item it :: acc) (tnorm_item it1 :: acc') st1 s1 s2 Hin1 Hk1 Hr1 Hits Els) as (st2 & Hre2 & M2 & Hin2 & Hr2).
     exists st2. split; [|split; [congruence|split; [|assumption]]].
     + cbn [flat_map]. rewrite <- app_assoc. eapply sreaches_trans; eassumption.
     + cbn [map rev]. rewrite <- app_assoc. exact Hin2.
@@ -1604,7 +1725,11 @@ Qed.
 
 Definition at_top (st : sstate) : Prop := ss_mod st = None /\ ss_func st = None.
 
-Definition l_module (s : lstate) (m : module) : option lstate := l_items (mkL [] [] (l_next s)) (mod_items m).
+Definition l_module (s : lstate) (m : module) : option (module * lstate) :=
+  match l_items (mkL [] [] (l_next s)) (mod_items m) with
+  | Some (its', s') => Some (mkModule (mod_name m) its', s')
+  | None => None
+  end.
 
 Lemma stmt_module st mname s rest : at_top st -> lrel st s ->
   exists st', ss_mods st' = ss_mods st /\ in_mod st' mname [] /\ lrel st' (mkL [] [] (l_next s))
@@ -1638,17 +1763,19 @@ Qed.
 
 Definition tmodule_ok (m : module) : Prop := titems_ok [] (mod_items m).
 
-Lemma module_reach st m s s' rest : at_top st -> lrel st s -> tmodule_ok m -> l_module s m = Some s' ->
+Lemma module_reach st m m' s s' rest : at_top st -> lrel st s -> tmodule_ok m -> l_module s m = Some (m', s') ->
   exists st', sreaches st (tk_module m ++ rest) st' rest
-    /\ ss_mods st' = tnorm_module m :: ss_mods st /\ at_top st' /\ lrel st' s'.
+    /\ ss_mods st' = tnorm_module m' :: ss_mods st /\ at_top st' /\ lrel st' s'.
 Proof.
   intros Htop Hrel Hok Hl. unfold tk_module. rewrite <- !app_assoc. cbn [app].
+  unfold l_module in Hl. destruct (l_items (mkL [] [] (l_next s)) (mod_items m)) as [[its' s1]|] eqn:Eits; [|discriminate].
+  inversion Hl; subst m' s'. clear Hl.
   destruct (stmt_module st (mod_name m) s (flat_map tk_item (mod_items m) ++ TName (str "endmodule") :: TNL :: rest) Htop Hrel)
     as (st1 & M1 & Hin1 & Hr1 & Hstep1).
-  destruct (items_reach (mod_name m) (TName (str "endmodule") :: TNL :: rest) (mod_items m) [] st1 _ s' Hin1 Hr1 Hok Hl)
+  destruct (items_reach (mod_name m) (TName (str "endmodule") :: TNL :: rest) (mod_items m) its' [] [] st1 _ s1 Hin1 eq_refl Hr1 Hok Eits)
     as (st2 & Hre2 & M2 & Hin2 & Hr2).
   rewrite app_nil_r in Hin2.
-  destruct (stmt_endmodule st2 (mod_name m) (rev (map tnorm_item (mod_items m))) s' rest Hin2 Hr2) as (st3 & M3 & Htop3 & Hr3 & Hstep3).
+  destruct (stmt_endmodule st2 (mod_name m) (rev (map tnorm_item its')) s1 rest Hin2 Hr2) as (st3 & M3 & Htop3 & Hr3 & Hstep3).
   exists st3. split; [|split; [|split; assumption]].
   - eapply sreaches_trans.
     { apply (step_to_reach st [TName (mod_name m); TCol; TName (str "module"); TNL] _ st1 3); [cbn; lia | cbn; lia | exact Hstep1]. }
@@ -1657,43 +1784,60 @@ Proof.
   - rewrite M3, rev_involutive, M2, M1. reflexivity.
 Qed.
 
-Fixpoint l_ctx (s : lstate) (ms : list module) : option lstate :=
+Fixpoint l_ctx (s : lstate) (ms : list module) : option (list module * lstate) :=
   match ms with
-  | [] => Some s
-  | m :: r => match l_module s m with Some s1 => l_ctx s1 r | None => None end
+  | [] => Some ([], s)
+  | m :: r => match l_module s m with
+              | Some (m', s1) => match l_ctx s1 r with Some (r', s2) => Some (m' :: r', s2) | None => None end
+              | None => None
+              end
   end.
 
-Lemma ctx_reach rest : forall ms st s s',
-  at_top st -> lrel st s -> Forall tmodule_ok ms -> l_ctx s ms = Some s' ->
+Lemma ctx_reach rest : forall ms ms' st s s',
+  at_top st -> lrel st s -> Forall tmodule_ok ms -> l_ctx s ms = Some (ms', s') ->
   exists st', sreaches st (tk_ctx ms ++ rest) st' rest
-    /\ ss_mods st' = rev (map tnorm_module ms) ++ ss_mods st /\ at_top st' /\ lrel st' s'.
+    /\ ss_mods st' = rev (map tnorm_module ms') ++ ss_mods st /\ at_top st' /\ lrel st' s'.
 Proof.
-  induction ms as [|m ms IH]; intros st s s' Htop Hrel Hok Hl.
-  - cbn in Hl. inversion Hl; subst s'. exists st. split; [apply sreaches_refl|]. split; [reflexivity|]. split; [exact Htop | exact Hrel].
-  - cbn [l_ctx] in Hl. destruct (l_module s m) as [s1|] eqn:Em; [|discriminate].
+  induction ms as [|m ms IH]; intros ms' st s s' Htop Hrel Hok Hl.
+  - cbn in Hl. inversion Hl; subst ms' s'. exists st. split; [apply sreaches_refl|]. split; [reflexivity|]. split; [exact Htop | exact Hrel].
+  - cbn [l_ctx] in Hl. destruct (l_module s m) as [[m1 s1]|] eqn:Em; [|discriminate].
+    destruct (l_ctx s1 ms) as [[r1 s2]|] eqn:Ec; [|discriminate]. inversion Hl; subst ms' s'. clear Hl.
     pose proof (Forall_inv Hok) as Hm. pose proof (Forall_inv_tail Hok) as Hms.
-    destruct (module_reach st m s s1 (tk_ctx ms ++ rest) Htop Hrel Hm Em) as (st1 & Hre1 & M1 & Htop1 & Hr1).
-    destruct (IH st1 s1 s' Htop1 Hr1 Hms Hl) as (st2 & Hre2 & M2 & Htop2 & Hr2).
+    destruct (module_reach st m m1 s s1 (tk_ctx ms ++ rest) Htop Hrel Hm Em) as (st1 & Hre1 & M1 & Htop1 & Hr1).
+    destruct (IH r1 st1 s1 s2 Htop1 Hr1 Hms Ec) as (st2 & Hre2 & M2 & Htop2 & Hr2).
     exists st2. split; [|split; [|split; assumption]].
     + unfold tk_ctx. cbn [flat_map]. fold (tk_ctx ms). rewrite <- app_assoc. eapply sreaches_trans; eassumption.
     + rewrite M2, M1. cbn [map rev]. rewrite <- app_assoc. reflexivity.
 Qed.
 
-(* labels are numbered in order of first occurrence, starting from a fresh context *)
-Definition canon_labels (ms : list module) : Prop := l_ctx (mkL [] [] 0) ms <> None.
+(* The renaming of labels MIR_scan_string performs, on the AST: every text label of a module gets the next
+   number of the context's counter at its first occurrence (reference or definition), module by module;
+   [None] when a label number is outside int64 or a label is defined twice in a module. *)
+Definition relabel_ctx (ms : list module) : option (list module) :=
+  match l_ctx (mkL [] [] 0) ms with Some (ms', _) => Some ms' | None => None end.
 
+(* labels are already numbered that way (what MIR_scan_string itself produces) *)
+Definition canon_labels (ms : list module) : Prop := relabel_ctx ms = Some ms.
+
+(* names resolve as meant, immediates are representable, and the labels can be renamed *)
+Definition wf_text_tokens_gen (ms : list module) : Prop := Forall tmodule_ok ms /\ relabel_ctx ms <> None.
 Definition wf_text_tokens (ms : list module) : Prop := Forall tmodule_ok ms /\ canon_labels ms.
 
-(* the statement parser inverts the printer on token level *)
-Lemma scan_loop_tk_ctx ms : wf_text_tokens ms ->
-  scan_loop (S (S (length (tk_ctx ms ++ [TEOF])))) sinit (tk_ctx ms ++ [TEOF]) = Ok (map tnorm_module ms).
+(* the statement parser inverts the printer on token level, up to the renaming of labels *)
+Lemma scan_loop_tk_ctx_gen ms ms' : Forall tmodule_ok ms -> relabel_ctx ms = Some ms' ->
+  scan_loop (S (S (length (tk_ctx ms ++ [TEOF])))) sinit (tk_ctx ms ++ [TEOF]) = Ok (map tnorm_module ms').
 Proof.
-  intros [Hok Hcan]. unfold canon_labels in Hcan.
-  destruct (l_ctx (mkL [] [] 0) ms) as [s'|] eqn:El; [|congruence].
+  intros Hok Hrl. unfold relabel_ctx in Hrl.
+  destruct (l_ctx (mkL [] [] 0) ms) as [[ms1 s']|] eqn:El; [|discriminate]. inversion Hrl; subst ms1. clear Hrl.
   assert (Hrel0 : lrel sinit (mkL [] [] 0)).
   { split; [constructor; cbn; [reflexivity | constructor | constructor | intros l []] | reflexivity]. }
-  destruct (ctx_reach [TEOF] ms sinit _ s' (conj eq_refl eq_refl) Hrel0 Hok El) as (st' & Hre & M & [Ht1 Ht2] & Hr).
+  destruct (ctx_reach [TEOF] ms ms' sinit _ s' (conj eq_refl eq_refl) Hrel0 Hok El) as (st' & Hre & M & [Ht1 Ht2] & Hr).
   destruct (Hre (S (S (length (tk_ctx ms ++ [TEOF])))) ltac:(lia)) as (f' & Hf' & E).
   rewrite E. destruct f' as [|f']; [cbn in Hf'; lia|].
   cbn [scan_loop scan_stmt skip_nl]. rewrite Ht1, Ht2, M. cbn [ss_mods sinit]. rewrite app_nil_r, rev_involutive. reflexivity.
 Qed.
+
+Lemma scan_loop_tk_ctx ms : wf_text_tokens ms ->
+  scan_loop (S (S (length (tk_ctx ms ++ [TEOF])))) sinit (tk_ctx ms ++ [TEOF]) = Ok (map tnorm_module ms).
+Proof. intros [Hok Hcan]. now apply scan_loop_tk_ctx_gen. Qed.
+
